@@ -18,9 +18,27 @@ const (
 	kClosure  = "closure"  // kids are captured variables
 	kMethod   = "method"   // kid is the receiver of a bound method stored as a value
 	kHostList = "hostlist" // list created by the host, passed in through predeclared; kids are elements
+	// leaf containers that never hold (or no longer hold) an element: their
+	// backing storage is in its initial (nil) or emptied state when the module ends
+	kEList = "elist" // []
+	kEDict = "edict" // {}
+	kESet  = "eset"  // set()
+	kCList = "clist" // [1] then clear()
+	kCDict = "cdict" // {"a": 1} then clear()
+	kCSet  = "cset"  // set([1]) then clear()
 )
 
-var allKinds = []string{kList, kDict, kDictK, kSet, kTuple, kStruct, kFnDef, kClosure, kMethod, kHostList}
+func leafKind(k string) bool {
+	return k == kEList || k == kEDict || k == kESet || k == kCList || k == kCDict || k == kCSet
+}
+
+// coreKinds: the node kinds used at every size; the cleared-container kinds
+// are only enumerated in graphs of <= 2 nodes and the never-populated ones in
+// graphs of <= 3 nodes (they are leaves, so larger graphs add little).
+var coreKinds = []string{kList, kDict, kDictK, kSet, kTuple, kStruct, kFnDef, kClosure, kMethod, kHostList}
+var coreAndEmptyKinds = append(append([]string{}, coreKinds...), kEList, kEDict, kESet)
+
+var allKinds = []string{kList, kDict, kDictK, kSet, kTuple, kStruct, kFnDef, kClosure, kMethod, kHostList, kEList, kEDict, kESet, kCList, kCDict, kCSet}
 
 type Node struct {
 	Kind string `json:"kind"`
@@ -34,7 +52,7 @@ type Graph struct {
 }
 
 func mutableKind(k string) bool {
-	return k == kList || k == kDict || k == kDictK || k == kSet || k == kHostList
+	return k == kList || k == kDict || k == kDictK || k == kSet || k == kHostList || leafKind(k)
 }
 
 // hard: children are fixed when the node is created.
@@ -61,6 +79,15 @@ func (g *Graph) String() string {
 		}
 	}
 	return sb.String()
+}
+
+func (g *Graph) hasLeafKind() bool {
+	for _, nd := range g.Nodes {
+		if leafKind(nd.Kind) {
+			return true
+		}
+	}
+	return false
 }
 
 func (g *Graph) edges() int {
@@ -136,6 +163,9 @@ func (g *Graph) valid() bool {
 			if len(n.Kids) != 1 || !mutableKind(g.Nodes[n.Kids[0]].Kind) {
 				return false
 			}
+		}
+		if leafKind(n.Kind) && len(n.Kids) != 0 {
+			return false
 		}
 		if hardKind(n.Kind) {
 			for _, k := range n.Kids {
@@ -300,7 +330,7 @@ func kidChoices(n, maxKids int) [][]int {
 
 // enumGraphs calls f on every valid canonical graph with exactly n nodes and
 // at most maxEdges edges, in a fixed order.
-func enumGraphs(n, maxKids, maxEdges int, f func(g *Graph)) {
+func enumGraphs(n, maxKids, maxEdges int, kinds []string, f func(g *Graph)) {
 	choices := kidChoices(n, maxKids)
 	g := &Graph{Nodes: make([]Node, n)}
 	var recKinds func(i int)
@@ -324,6 +354,9 @@ func enumGraphs(n, maxKids, maxEdges int, f func(g *Graph)) {
 			if k == kMethod && len(ch) != 1 {
 				continue
 			}
+			if leafKind(k) && len(ch) != 0 {
+				continue
+			}
 			if (k == kTuple || k == kStruct || k == kFnDef || k == kClosure) && len(ch) == 0 {
 				continue
 			}
@@ -336,7 +369,7 @@ func enumGraphs(n, maxKids, maxEdges int, f func(g *Graph)) {
 			recKids(0, 0)
 			return
 		}
-		for _, k := range allKinds {
+		for _, k := range kinds {
 			g.Nodes[i].Kind = k
 			recKinds(i + 1)
 		}
@@ -350,11 +383,11 @@ func enumGraphs(n, maxKids, maxEdges int, f func(g *Graph)) {
 // mutation statement on a kid value named v (inside function bodies)
 func mutStmt(kind, v string) string {
 	switch kind {
-	case kList, kHostList:
+	case kList, kHostList, kEList, kCList:
 		return v + ".append(9)"
-	case kDict, kDictK:
+	case kDict, kDictK, kEDict, kCDict:
 		return v + "[9] = 9"
-	case kSet:
+	case kSet, kESet, kCSet:
 		return v + ".add(9)"
 	}
 	return ""
@@ -362,11 +395,11 @@ func mutStmt(kind, v string) string {
 
 func methodName(kind string) string {
 	switch kind {
-	case kList, kHostList:
+	case kList, kHostList, kEList, kCList:
 		return "append"
-	case kDict, kDictK:
+	case kDict, kDictK, kEDict, kCDict:
 		return "setdefault"
-	case kSet:
+	case kSet, kESet, kCSet:
 		return "add"
 	}
 	return ""
@@ -389,6 +422,18 @@ func (g *Graph) Program(outcome string, helperSrc string) string {
 			b = append(b, name(i)+` = {"a": 1}`)
 		case kSet:
 			b = append(b, name(i)+" = set([1])")
+		case kEList:
+			b = append(b, name(i)+" = []")
+		case kEDict:
+			b = append(b, name(i)+" = {}")
+		case kESet:
+			b = append(b, name(i)+" = set()")
+		case kCList:
+			b = append(b, name(i)+" = [1]", name(i)+".clear()")
+		case kCDict:
+			b = append(b, name(i)+` = {"a": 1}`, name(i)+".clear()")
+		case kCSet:
+			b = append(b, name(i)+" = set([1])", name(i)+".clear()")
 		case kTuple:
 			parts := []string{"1"}
 			for _, k := range nd.Kids {
